@@ -1,6 +1,6 @@
 SPECIFICATION Spec
 CONSTANTS TS = 2 HSA = 5 G = 1 NApps = 1 Others = {1, 3, 126} AppTargets = {9}
-  MaxDepth = 3 WithPartial = FALSE Warm = FALSE WarmPS = 1 WarmNS = 3 Emit = "state"
+  MaxDepth = 3 WithPartial = FALSE Held = FALSE Warm = FALSE WarmPS = 1 WarmNS = 3 Emit = "state"
   FixF2 = FALSE FixF3 = FALSE FixF14 = FALSE
 INVARIANT EmitState
 VIEW View
